@@ -351,6 +351,90 @@ pub fn check_accepted(c: &ShadowCase, st: &mut Stats) -> Result<(), Failure> {
     Ok(())
 }
 
+// ---- unversioned servers ---------------------------------------------------
+
+/// Starting an *unversioned* server with the same set of endpoints registered in two orders: the
+/// server must be accepted in both orders or refused in both, and when it is accepted the two
+/// servers answer every probe identically.  (dropshot refuses unversioned servers whose API has
+/// version-restricted endpoints; whether it does is not judged here, only that order is irrelevant.)
+pub fn check_unversioned(rt: &tokio::runtime::Runtime, c: &TableCase, st: &mut Stats) -> Result<(), Failure> {
+    let table = c.table.endpoints(MAX_ENDPOINTS);
+    if table.is_empty() {
+        return Ok(());
+    }
+    let t_a = permute(&table, &c.perm_a);
+    let mut t_b = t_a.clone();
+    t_b.reverse();
+    // also try the order that puts an unrestricted endpoint last / first
+    let mut t_c = t_a.clone();
+    t_c.sort_by_key(|e| e.range == MRange::All);
+    let mut t_d = t_c.clone();
+    t_d.reverse();
+    let text = || table.iter().map(|e| format!("{}:{} {} [{}]", e.op, e.method, e.template(), e.range.text())).collect::<Vec<_>>().join("; ");
+    let mut servers = vec![];
+    for (name, t) in [("A", &t_a), ("reverse of A", &t_b), ("restricted first", &t_c), ("restricted last", &t_d)] {
+        let api = match build_api(t) {
+            Ok(a) => a,
+            Err(m) => fail!("clean-table-refused", "a table without conflicts was refused: {}", m),
+        };
+        let _g = rt.enter();
+        servers.push((name, start_server(api, DynCtx::default(), Default::default(), None)));
+    }
+    st.count("tables");
+    let restricted = table.iter().filter(|e| e.range != MRange::All).count();
+    if restricted > 0 && restricted < table.len() {
+        st.count("mixed_restricted_and_unrestricted");
+        st.nontrivial(hash_of(&text()));
+    }
+    let accepted: Vec<bool> = servers.iter().map(|(_, s)| s.is_ok()).collect();
+    st.eval();
+    let result = (|| {
+        ensure!(
+            accepted.iter().all(|a| *a == accepted[0]),
+            "unversioned-server-acceptance-depends-on-order",
+            "unversioned server for [{}]: accepted per registration order {:?} = {:?}",
+            text(),
+            servers.iter().map(|(n, _)| *n).collect::<Vec<_>>(),
+            accepted
+        );
+        if !accepted[0] {
+            st.count("refused_in_every_order");
+            return Ok(());
+        }
+        st.count("accepted_in_every_order");
+        rt.block_on(async {
+            for p in &c.probes {
+                let pr = interpret_probe(&table, p);
+                let req = http1::build_request(&pr.method, &pr.raw_path, &[], None);
+                let mut answers = vec![];
+                for (name, s) in &servers {
+                    let addr = s.as_ref().unwrap().local_addr();
+                    let r = http1::oneshot(addr, &req, pr.method == "HEAD", Duration::from_secs(10)).await.map_err(|e| Failure::new("no-response", format!("{} {}: {}", pr.method, pr.raw_path, e)))?;
+                    answers.push((*name, r.status, r.json().map(|j| j["op"].clone())));
+                }
+                st.eval();
+                ensure!(
+                    answers.iter().all(|a| a.1 == answers[0].1 && a.2 == answers[0].2),
+                    "order-dependence",
+                    "unversioned servers for [{}]: {} {} answered per registration order: {:?}",
+                    text(),
+                    pr.method,
+                    pr.raw_path,
+                    answers
+                );
+            }
+            Ok(())
+        })
+    })();
+    for (_, s) in servers {
+        if let Ok(s) = s {
+            let _ = rt.block_on(s.close());
+        }
+    }
+    st.sample(|| json!({"table": text(), "accepted": accepted[0]}));
+    result
+}
+
 // ---- live ---------------------------------------------------------------
 
 pub fn check_live(mode: Mode, rt: &tokio::runtime::Runtime, c: &TableCase, st: &mut Stats) -> Result<(), Failure> {
@@ -474,7 +558,7 @@ pub fn check_live(mode: Mode, rt: &tokio::runtime::Runtime, c: &TableCase, st: &
 
 pub fn run(ctx: &mut Ctx, mode: Mode) {
     let (id, rule) = match mode {
-        Mode::C01 => ("C01", "route tables built constructively as trees (literal/variable/wildcard edges, 0-3 methods per node each with pairwise disjoint version ranges), registered in two shuffled orders; probes instantiate a template with adversarial segments and optionally mutate it; oracle = flat-list reference matcher. non-trivial = hit on a table of >=3 endpoints that binds a variable/wildcard, or lands on a node with >=2 same-method endpoints at different versions, or on a node with a variable/wildcard child; distinct by (table, probe). Phase accepted_sets: the same tables plus 1-3 copies of existing (method, path) pairs with arbitrary version ranges; sets that dropshot accepts completely in an order and in its reverse must dispatch identically in both and no probe may match two accepted endpoints (non-trivial = probe landing on a route that has a second endpoint)"),
+        Mode::C01 => ("C01", "route tables built constructively as trees (literal/variable/wildcard edges, 0-3 methods per node each with pairwise disjoint version ranges), registered in two shuffled orders; probes instantiate a template with adversarial segments and optionally mutate it; oracle = flat-list reference matcher. non-trivial = hit on a table of >=3 endpoints that binds a variable/wildcard, or lands on a node with >=2 same-method endpoints at different versions, or on a node with a variable/wildcard child; distinct by (table, probe). Phase accepted_sets: the same tables plus 1-3 copies of existing (method, path) pairs with arbitrary version ranges; sets that dropshot accepts completely in an order and in its reverse must dispatch identically in both and no probe may match two accepted endpoints (non-trivial = probe landing on a route that has a second endpoint). Phase unversioned_servers: the same endpoint set registered in four orders (a shuffle, its reverse, restricted endpoints first / last) and started as an unversioned server: accepted in all orders or in none, and identical answers to every probe when accepted"),
         Mode::C04 => ("C04", "same tables as C01, probes biased to misses; oracle = served_methods(path, version) from the flat-list reference matcher. non-trivial = 405 whose node also carries a method not served at this version, or 404 whose path exists at another version (in-process); live: every 405 with its Allow bytes; distinct by (table, probe)"),
     };
     let _ = id;
@@ -496,7 +580,13 @@ pub fn run(ctx: &mut Ctx, mode: Mode) {
         ctx.require_frac("inproc", "expect405", "probes", 0.03);
         ctx.require_frac("inproc", "expect405_version_filter_matters", "probes", 0.003);
     }
-    let tables = ctx.tier.pick(1200, 12000);
     let rt = tokio::runtime::Builder::new_multi_thread().worker_threads(2).enable_all().build().unwrap();
+    if mode == Mode::C01 {
+        let n = ctx.tier.pick(600, 8000);
+        ctx.phase("unversioned_servers", n, table_case_strategy(2, 4, false), |c, st| check_unversioned(&rt, c, st));
+        ctx.require_frac("unversioned_servers", "mixed_restricted_and_unrestricted", "tables", 0.15);
+        ctx.require_frac("unversioned_servers", "accepted_in_every_order", "tables", 0.05);
+    }
+    let tables = ctx.tier.pick(1200, 12000);
     ctx.phase("live", tables, table_case_strategy(3, probes, mode == Mode::C04), |c, st| check_live(mode, &rt, c, st));
 }
